@@ -321,12 +321,23 @@ pub struct Parsed {
 
 /// Parse `bits` + sentinel with the code under test and judge against `exp`.
 pub fn judge(bits: &BitWriter, opts: DecoderOption, prev: Option<&hk::Picture>, exp: &Expected, what: &dyn Fn() -> String) -> Result<Parsed, String> {
+    judge_with(bits, &mut |r| decode_picture(r, opts, prev), exp, what)
+}
+
+/// As `judge`, with the parsing entry point given by the caller (the free function, or the
+/// decoder state's `parse_picture`).
+pub fn judge_with(
+    bits: &BitWriter,
+    parse: &mut dyn FnMut(&mut H263Reader<&[u8]>) -> h263_rs::Result<Option<hk::Picture>>,
+    exp: &Expected,
+    what: &dyn Fn() -> String,
+) -> Result<Parsed, String> {
     let mut w = bits.clone();
     let hdr_len = w.len();
     w.put(SENTINEL as u64, 32);
     let bytes = w.to_bytes();
     let mut r = H263Reader::from_source(&bytes[..]);
-    let res = guard(|| decode_picture(&mut r, opts, prev)).map_err(|p| format!("{}: decode_picture panicked: {}", what(), p))?;
+    let res = guard(|| parse(&mut r)).map_err(|p| format!("{}: decode_picture panicked: {}", what(), p))?;
     match exp {
         Expected::Excluded(_) => Ok(Parsed { picture: None, class: "excluded" }),
         Expected::Fields(f) => {
@@ -1136,6 +1147,12 @@ fn state_case(g: &mut Gen, cfg: &PicCfg) -> Verdict {
                     lp.tr, lp.ptype, lp.quant, lp.format_dims, p.hdr.tr, want_type, p.hdr.quant, w, h
                 ));
             }
+            if mode == Mode::Standard {
+                let umv = lp.options_bits & O_UMV != 0;
+                if umv != p.hdr.umv_coded() {
+                    return Verdict::fail(format!("decoded picture reports unrestricted-motion-vector mode {}, its header carried {}", umv, p.hdr.umv_coded()));
+                }
+            }
             if mode == Mode::Sorenson {
                 let deb = lp.options_bits & O_DEBLOCKER != 0;
                 if deb != p.hdr.deblock {
@@ -1150,7 +1167,14 @@ fn state_case(g: &mut Gen, cfg: &PicCfg) -> Verdict {
     let phi = g.range(1, 12) as u16;
     let (w, h) = ((pwi as usize + 1) * 4, phi as usize * 4);
     let mut p = base_plus();
-    p.opp = Opp::from_mode_bits(6, false, 0);
+    // optional modes that leave the decoding of this harness's pictures alone: Reference Picture
+    // Selection (TRPI = 0: predict from the previous picture), Deblocking Filter and Independent
+    // Segment Decoding mode bits (the tree does not act on either)
+    let mode_bits: u32 = (if g.chance(1, 2) { 1 << 3 } else { 0 }) | (if g.chance(1, 3) { 1 << 5 } else { 0 }) | (if g.chance(1, 3) { 1 << 2 } else { 0 });
+    p.opp = Opp::from_mode_bits(6, false, mode_bits);
+    p.rpsmf = 4 + g.below(4) as u8;
+    p.trp = None;
+    p.bci = Bci::Absent;
     p.cpfmt = Cpfmt { par: g.range(1, 5) as u8, pwi, marker: true, phi, epar: (1, 1) };
     p.rtype = false;
     let mut ih = base_header(Kind::Plus(p.clone()));
@@ -1164,35 +1188,64 @@ fn state_case(g: &mut Gen, cfg: &PicCfg) -> Verdict {
         let mb = gen_intra_mb(g, &mb_hdr_i, false, false);
         encode_mb(&mb, &mb_hdr_i, &mut wi);
     }
-    let mut p2 = p.clone();
-    p2.ufep = 0;
-    p2.ptype_code = 1;
-    let mut ph = base_header(Kind::Plus(p2));
-    ph.tr = g.byte();
-    ph.quant = gen_quant(g);
-    let mb_hdr_p = Header::standard(PicType::P, Size::Custom16(w as u16, h as u16), ph.quant);
-    let mut wp = BitWriter::new();
-    ph.write(false, &Inherited { mode_bits: Some(0) }, &mut wp);
-    for _ in 0..total {
-        let mb = gen_inter_mb(g, &mb_hdr_p, false);
-        encode_mb(&mb, &mb_hdr_p, &mut wp);
+    // one to three P pictures in a row that do not restate the format (UFEP=0)
+    let n_p = 1 + g.weighted(&[3, 3, 2]);
+    let mut pictures: Vec<(String, Vec<u8>, u8, u8, &'static str)> = vec![("I".into(), wi.to_bytes(), ih.tr, ih.quant, "IFrame")];
+    for k in 0..n_p {
+        let mut p2 = p.clone();
+        p2.ufep = 0;
+        p2.ptype_code = 1;
+        let mut ph = base_header(Kind::Plus(p2));
+        ph.tr = g.byte();
+        ph.quant = gen_quant(g);
+        let mb_hdr_p = Header::standard(PicType::P, Size::Custom16(w as u16, h as u16), ph.quant);
+        let mut wp = BitWriter::new();
+        ph.write(false, &Inherited { mode_bits: Some(mode_bits) }, &mut wp);
+        for _ in 0..total {
+            let mb = gen_inter_mb(g, &mb_hdr_p, false);
+            encode_mb(&mb, &mb_hdr_p, &mut wp);
+        }
+        pictures.push((format!("P #{} without restated format", k + 1), wp.to_bytes(), ph.tr, ph.quant, "PFrame"));
     }
-    g.describe(|| json!({"plusptype_custom_format": [w, h], "i_hex": crate::bits::hex(&wi.to_bytes()), "p_hex": crate::bits::hex(&wp.to_bytes())}));
+    // afterwards the state's own header parser is asked about an arbitrary header with *no*
+    // previous picture: whatever the state has decoded so far must not leak into the result
+    let probe = gen_std_header(g, true);
+    g.describe(|| json!({"plusptype_custom_format": [w, h], "pictures": pictures.iter().map(|p| json!({"what": p.0, "hex": crate::bits::hex(&p.1)})).collect::<Vec<_>>(), "then_parse_picture_without_previous": format!("{:?}", probe)}));
     let mut st = H263State::new(options(Mode::Standard, false));
-    for (name, bytes, tr, q, ty) in [("I", wi.to_bytes(), ih.tr, ih.quant, "IFrame"), ("P without restated format", wp.to_bytes(), ph.tr, ph.quant, "PFrame")] {
-        match decode_bytes(&mut st, &bytes) {
+    let mut key = 0u64;
+    for (name, bytes, tr, q, ty) in pictures.iter() {
+        key = key.rotate_left(7) ^ fnv64(bytes);
+        match decode_bytes(&mut st, bytes) {
             Outcome::Ok => {}
             o => return Verdict::fail(format!("valid PLUSPTYPE {} picture ({}x{} custom format) not decoded: {}", name, w, h, o.short())),
         }
         let lp = last_picture(&st).unwrap();
-        if lp.tr != tr as u16 || lp.quant != q || lp.ptype != ty || lp.format_dims != Some((w as u16, h as u16)) || lp.y_len != w * h {
+        if lp.tr != *tr as u16 || lp.quant != *q || lp.ptype != *ty || lp.format_dims != Some((w as u16, h as u16)) || lp.y_len != w * h {
             return Verdict::fail(format!(
                 "PLUSPTYPE {} picture: decoded picture reports TR {} type {} PQUANT {} size {:?} ({} luma samples); header carried TR {} type {} PQUANT {} size {}x{}",
                 name, lp.tr, lp.ptype, lp.quant, lp.format_dims, lp.y_len, tr, ty, q, w, h
             ));
         }
     }
-    Verdict::pass_l(true, fnv64(&wi.to_bytes()) ^ fnv64(&wp.to_bytes()), vec!["state: PLUSPTYPE custom format, then format-less P"])
+    let exp = expect_std(&probe, false, &Inherited::default());
+    let bits = std_bits(&probe, false, &Inherited::default());
+    key = key.rotate_left(7) ^ fnv64(&bits.to_bytes());
+    let what = || format!("H263State::parse_picture(reader, None) after {} decoded pictures, header {:?}", pictures.len(), probe);
+    let class = match judge_with(&bits, &mut |r| st.parse_picture(r, None), &exp, &what) {
+        Ok(p) => p.class,
+        Err(m) => return Verdict::fail(m),
+    };
+    let mut l: Labels = vec!["state: PLUSPTYPE custom format, then format-less P"];
+    if mode_bits != 0 {
+        l.push("state: history with OPPTYPE modes in force (RPS / DF / ISD)");
+    }
+    if n_p >= 2 {
+        l.push("state: two or more format-less P pictures in a row");
+    }
+    if class == "accepted, all fields equal" {
+        l.push("state: parse_picture without previous picture, accepted header");
+    }
+    Verdict::pass_l(true, key, l)
 }
 
 pub fn run(ctx: &Ctx) -> i32 {
